@@ -442,8 +442,18 @@ def _handle_fn_body(body: list[ast.stmt], ctx: Context) -> sympy.Expr | None:
             break
 
         elif isinstance(node, ast.Assign):
+            if len(node.targets) > 1:
+                # Chained assignment a = b = e binds every target to the one value
+                if not all(isinstance(target, ast.Name) for target in node.targets):
+                    msg = "Only names can be targets of a chained assignment"
+                    raise TypeError(msg)
+                value = _handle_expr(node.value, ctx)
+                if value is None:
+                    return None
+                for target in node.targets:
+                    ctx.symbols[cast(ast.Name, target).id] = value
             # Handle tuple assignments like c, d = a, b
-            if isinstance(node.targets[0], ast.Tuple):
+            elif isinstance(node.targets[0], ast.Tuple):
                 # Handle tuple unpacking
                 target_elements = node.targets[0].elts
 
